@@ -521,6 +521,98 @@ class OracleGeo:
                 break
         return sorted(out, key=lambda c: c[0])
 
+    # ------------------------------------------ centres / axes of spheres and cylinders
+    def zero_gradient_face(self, p, guard=1e-6):
+        """True iff, at some level of p's chain of universes, a sphere or cylinder that is a FACE of the
+        volume containing p has an exactly vanishing gradient at the local point (p is the centre of the
+        sphere / lies on the axis of the cylinder): the outward normal is undefined there."""
+        P = np.asarray(p, float).copy()
+        uid, level = 0, 0
+        while level <= 64:
+            u = self.universes[uid]
+            if u["type"] == "rectarray":
+                cell = []
+                for ax, g in enumerate(u["grid"]):
+                    if P[ax] <= g[0] or P[ax] >= g[-1]:
+                        return False
+                    cell.append(int(np.clip(np.searchsorted(g, P[ax], side="right") - 1, 0, len(g) - 2)))
+                nx, ny, nz = u["dims"]
+                daughter = u["daughters"][(cell[0] * ny + cell[1]) * nz + cell[2]]
+            else:
+                r = dict(valid=np.ones(1, bool), outside=np.zeros(1, bool), why=[""], detail=[None],
+                         path=[[]], name=[None], guard=guard)
+                gabs = guard * np.maximum(1.0, np.abs(P[None, :]).max(axis=1))
+                groups = self._unit_volumes(uid, u, np.arange(1), P[None, :], gabs, r)
+                if not r["valid"][0] or not groups:
+                    return False
+                li = int(groups[0][4])
+                for fi in u["volumes"][li]["faces"]:
+                    st, d = u["surfaces"][fi]
+                    if st in ("s", "sc", "cx", "cy", "cz", "cxc", "cyc", "czc"):
+                        if surf_eval(st, d, P[None, :])[1][0] == 0.0:
+                            return True
+                daughter = groups[0][3]
+            if daughter is None:
+                return False
+            d_uid, R, t = daughter
+            P = P - t
+            if R is not None:
+                P = P @ R
+            uid = d_uid
+            level += 1
+        return False
+
+    def centre_points(self, rng, nmax=12, per_cyl=2):
+        """Global points exactly at the centres of spheres / on the axes of cylinders of the placed units
+        (universe tree walked from the global universe, at most 60 placements), for safety probes."""
+        out = []
+        todo = [(0, np.eye(3), np.zeros(3), 0)]
+        seen = 0
+        bb = self.world_bbox
+        span = 1.0
+        if bb is not None:
+            span = float(np.max(np.abs(np.asarray(bb, float)))) if np.all(np.isfinite(np.asarray(bb, float))) else 1.0
+        while todo and seen < 60:
+            uid, Rup, tup, level = todo.pop(0)
+            seen += 1
+            u = self.universes[uid]
+            if u["type"] == "rectarray":
+                for dd in u["daughters"][:8]:
+                    if dd is not None and level < 4:
+                        d_uid, R, t = dd
+                        todo.append((d_uid, Rup if R is None else Rup @ R, Rup @ t + tup, level + 1))
+                continue
+            for st, d in u["surfaces"]:
+                loc = []
+                if st == "sc":
+                    loc.append(np.zeros(3))
+                elif st == "s":
+                    loc.append(np.asarray(d[:3], float))
+                elif st in ("cxc", "cyc", "czc", "cx", "cy", "cz"):
+                    ax = _AX[st[1]]
+                    a, b = _uv(ax)
+                    for _ in range(per_cyl):
+                        q = np.zeros(3)
+                        if len(d) == 3:
+                            q[a], q[b] = d[0], d[1]
+                        # an exactly representable coordinate along the axis
+                        q[ax] = float(np.round(rng.uniform(-1, 1) * min(span, 50.0) * 8) / 8)
+                        loc.append(q)
+                    q0 = np.zeros(3)
+                    if len(d) == 3:
+                        q0[a], q0[b] = d[0], d[1]
+                    loc.append(q0)
+                for q in loc:
+                    out.append(Rup @ q + tup)
+            for v in u["volumes"]:
+                if v["daughter"] is not None and level < 4:
+                    d_uid, R, t = v["daughter"]
+                    todo.append((d_uid, Rup if R is None else Rup @ R, Rup @ t + tup, level + 1))
+        if len(out) > nmax:
+            idx = rng.permutation(len(out))[:nmax]
+            out = [out[i] for i in idx]
+        return out
+
     def locate_labels(self, pts, guard=1e-6):
         """Deepest C++-style label per point (None where invalid)."""
         res = self.locate(pts, guard)
